@@ -275,7 +275,7 @@ impl Rng {
 
 // ---------------------------------------------------------------- block patterns
 
-const P: usize = 251;
+const P: usize = 97;
 fn pbyte(pat: u32, j: usize) -> u8 {
     let x = pat.wrapping_mul(2654435761).rotate_left((j % 29) as u32) ^ (j as u32).wrapping_mul(0x01000193);
     (x ^ (x >> 8) ^ (x >> 16) ^ (x >> 24)) as u8
@@ -436,12 +436,15 @@ impl St {
                 _ => 1 << 20,
             }
         };
-        if slow && s > 16384 {
-            // Cleanup::drop poisons byte by byte: keep most of those small, a few up to 2^16, rare 2^20
-            match self.rng.below(40) {
+        if slow {
+            // Cleanup::drop poisons the block byte by byte in interpreted code: keep most of
+            // those small, some up to 2^14 / 2^16, and only rarely the full range
+            match self.rng.below(300) {
                 0 => s,
-                1..=4 => 16384 + s % (65536 - 16384 + 1),
-                _ => 1 + s % 16384,
+                1..=6 => 1 + s % 65536,
+                7..=30 => 1 + s % 16384,
+                31..=120 => 1 + s % 2048,
+                _ => 1 + s % 64,
             }
         } else {
             s
